@@ -97,6 +97,17 @@ Definition sobs_eqb (a b : sobs) : bool :=
   | _, _ => false
   end.
 
+Definition fobs_eqb (a b : fobs) : bool :=
+  match a, b with
+  | FLifeRes e1 c1, FLifeRes e2 c2 => Bool.eqb e1 e2 && option_eqb Bool.eqb c1 c2
+  | FBegun, FBegun => true
+  | FNotBegun, FNotBegun => true
+  | FEnded r1, FEnded r2 => Bool.eqb r1 r2
+  | FNoEnd, FNoEnd => true
+  | FQueried r1, FQueried r2 => Bool.eqb r1 r2
+  | _, _ => false
+  end.
+
 (* ---- cases ----------------------------------------------------------------------------------- *)
 Inductive vcase :=
 (* Validate() class; NewMemoryLimiter outcome: 0 = error, 1 = panic, 2 = limiter with usage checker (limit, spike) *)
@@ -111,7 +122,10 @@ Inductive vcase :=
 | CShare (calls : list (nat * bool)) (obs : list (option nat))
 (* a started/stopped limiter with its real ticker: Start / Shutdown / "usage becomes r and a tick
    is awaited" / MustRefuse; clock 0, minimum GC intervals far away (no GC is ever due) *)
-| CSys (c : config) (total : option Z) (ops : list sop) (obs : list sobs).
+| CSys (c : config) (total : option Z) (ops : list sop) (obs : list sobs)
+(* the same with checks that take time: a check is held inside CheckMemLimits (FBegin) while
+   Start/Shutdown/MustRefuse happen, and released later (FEnd, or by the last Shutdown's wait) *)
+| CFine (c : config) (total : option Z) (ops : list fop) (obs : list fobs).
 
 Definition check_case (c : vcase) : bool :=
   match c with
@@ -136,6 +150,11 @@ Definition check_case (c : vcase) : bool :=
       | Some l => list_eqb sobs_eqb (snd (sys_run l (sys0 0) ops)) obs
       | None => false
       end
+  | CFine cfg total ops obs =>
+      match new_limiter cfg total with
+      | Some l => list_eqb fobs_eqb (snd (frun l (fsys0 0) ops)) obs
+      | None => false
+      end
   end.
 
 (* model outputs, for replay files *)
@@ -145,7 +164,8 @@ Inductive mout :=
 | MLife (obs : list life_obs)
 | MGate (obs : option (list gobs))
 | MShare (obs : list (option nat))
-| MSys (obs : option (list sobs)).
+| MSys (obs : option (list sobs))
+| MFine (obs : option (list fobs)).
 
 Definition model_out (c : vcase) : mout :=
   match c with
@@ -156,4 +176,5 @@ Definition model_out (c : vcase) : mout :=
   | CGate cfg total ops _ => MGate (option_map (fun l => snd (gate_run l (st0 0) ops)) (new_limiter cfg total))
   | CShare calls _ => MShare (snd (factory_run [] calls))
   | CSys cfg total ops _ => MSys (option_map (fun l => snd (sys_run l (sys0 0) ops)) (new_limiter cfg total))
+  | CFine cfg total ops _ => MFine (option_map (fun l => snd (frun l (fsys0 0) ops)) (new_limiter cfg total))
   end.
